@@ -342,6 +342,10 @@ def url_cases():
             ['http', 'https', 'ws', 'wss'], ['h', 'h:8080', '[::1]:9'], ['', '/', '/x/y'],
             ['', 'a=1', 'a=1&b=%20&c=', 'token=&debug&a=1&a=2', 'name=caf%E9&x=a%2Fb+c%26d'], ['engine.io', '/engine.io/', 'a/b'], ['polling', 'websocket']):
         yield ('%s://%s%s%s' % (scheme, host, path, ('?' + query) if query else ''), ep, tr)
+    # the caller's order of transports decides which one is tried first
+    for scheme in ('http', 'wss'):
+        for tr in ('websocket+polling', 'polling+websocket'):
+            yield ('%s://h/x?a=1' % scheme, 'engine.io', tr)
 
 
 def check_urls(impl, cases):
@@ -350,7 +354,9 @@ def check_urls(impl, cases):
     for url, ep, tr in cases:
         w = cworld.make_client_world(impl)
         try:
-            c = w.call('connect', url, transports=[tr], engineio_path=ep)
+            order = tr.split('+')        # 'websocket+polling': the caller's list, first choice first
+            tr = order[0]
+            c = w.call('connect', url, transports=order, engineio_path=ep)
             w.run()
             if tr == 'polling':
                 got = [r.url for r in w.server.reqs][:1]
